@@ -59,8 +59,7 @@ def gen_cases(tier, seed):
     for i in range(nrand):
         L = int(rng.integers(4, 9))
         batch.append({"init": INITS[i % 3], "ops": [int(v) for v in rng.integers(0, len(OPS), L)], "cell": CELLS[(i // 3 + i) % len(CELLS)],
-                      "fsf": 1.07 if rng.integers(5) == 0 else None, "order": ["asis", "interleave"][int(rng.integers(2))],
-                      "nosym": bool(i % 4 == 1)})  # (i//3 + i): every cell meets every initial NAC state
+                      "fsf": 1.07 if rng.integers(5) == 0 else None, "order": ["asis", "interleave"][int(rng.integers(2))]})  # (i//3 + i): every cell meets every initial NAC state
         if len(batch) == 10:
             cases.append({"kind": "histories", "batch": batch, "seed": int(rng.integers(10 ** 6)), "_cost": 30})
             batch = []
@@ -75,7 +74,7 @@ def gen_cases(tier, seed):
 class World:
     """One Phonopy instance under test plus everything the harness needs to act on it."""
 
-    def __init__(self, cell, init, seed, fsf=None, order="asis", nosym=False):
+    def __init__(self, cell, init, seed, fsf=None, order="asis"):
         import warnings
 
         from vlib.gen import crystals, models, nac as nacgen, setup
@@ -84,8 +83,6 @@ class World:
         self.case = {"crystal": {"name": cell, "order": order, "order_seed": 3}, "smat": np.eye(3, dtype=int).tolist()}
         # constructor options that are part of the object's fixed identity (the fresh reference object gets the same ones)
         self.over = {} if fsf is None else {"frequency_scale_factor": float(fsf)}
-        if nosym:  # (round 9: without symmetry the object hands its own parameter dictionaries on without the copies symmetrisation makes)
-            self.over["is_symmetry"] = False
         warnings.simplefilter("ignore", DeprecationWarning)
         ph, cd = setup.build_phonopy(self.case)
         self.case["pmat"] = cd["pmat"] if cd["pmat"] != "P" else None
@@ -349,8 +346,7 @@ def run_case(c):
 
     if c["kind"] == "histories":
         for hi, h in enumerate(c["batch"]):
-            w = World(h["cell"], h["init"], c["seed"] + hi, fsf=h.get("fsf"), order=h.get("order", "asis"), nosym=bool(h.get("nosym")))
-            obs["with_is_symmetry_false"] = obs.get("with_is_symmetry_false", 0) + int(bool(h.get("nosym")))
+            w = World(h["cell"], h["init"], c["seed"] + hi, fsf=h.get("fsf"), order=h.get("order", "asis"))
             obs["interleaved_cells"] = obs.get("interleaved_cells", 0) + int(h.get("order") == "interleave")
             obs["with_frequency_scale_factor"] = obs.get("with_frequency_scale_factor", 0) + int(h.get("fsf") is not None)
             base = queries(w.ph, with_thermal=False)
